@@ -22,6 +22,8 @@ raw cases only (op merge_raw: the model does the IPNetwork(x) coercion itself, M
              ('SM', ver, value, plen) 'addr/netmask'   ('SH', ver, value, plen) 'addr/hostmask' (0 < plen < width)
              ('SP', 4, value, plen) partial IPv4 'a.b/plen' (trailing zero octets dropped)
              ('SZ', 4, value, plen) zero-padded octets '010.001.000.000/plen'
+             ('SW', ver, value, plen) blanks round the parts, ' a.b.c.d / plen ' (IPv4: read through
+                                      expand_partial_address / int(); IPv6: round the prefix only)
              ('I', ver, value) a bare int (cidr_merge -> IPNetwork(int) -> TypeError)
              ('SX', ver, text) a text no constructor accepts (AddrFormatError)
   merge_raw [item,...]   item = S:<hex of utf-8> | I:<int> | A:ver:value | N:ver:value:plen | R:ver:lo:hi
@@ -101,7 +103,7 @@ def _blk_last(ver, v, p):
     return ((v >> h) << h) + (1 << h) - 1
 
 
-_NETKINDS = ('N', 'SN', 'SM', 'SH', 'SP', 'SZ')
+_NETKINDS = ('N', 'SN', 'SM', 'SH', 'SP', 'SZ', 'SW')
 _BADKINDS = ('I', 'SX')
 
 
@@ -155,6 +157,8 @@ def _text(it):
         return '%s/%s' % (_fmt(ver, v), _fmt(ver, _M[ver] ^ host))
     if k == 'SH':
         return '%s/%s' % (_fmt(ver, v), _fmt(ver, host))
+    if k == 'SW':
+        return (' %s / %d ' if ver == 4 else '%s/ %d ') % (_fmt(ver, v), p)
     octs = [v >> 24, (v >> 16) & 255, (v >> 8) & 255, v & 255]
     if k == 'SP':
         while len(octs) > 1 and octs[-1] == 0:
@@ -244,7 +248,7 @@ def _perm(rng, n):
 
 
 _BAD_TEXTS = ('', 'bad', '1.2.3.4/33', '1.2.3.4/', '1.2.3.256', '1.2.3.4/255.0.255.0', '::1/129', '1.2.3.4//8', ':::',
-              '1.2.3.4/-1', '1.2.3.4 /8', '1.2.3.4.5', 'fe80::1::2/64', '::g/8', '10.0.0.0/0.255.0.255', '/8')
+              '1.2.3.4/-1', '1.2.3.4.5', 'fe80::1::2/64', '::g/8', '10.0.0.0/0.255.0.255', '/8')
 
 
 def _respell(rng, it):
@@ -253,7 +257,7 @@ def _respell(rng, it):
     if k not in ('N', 'SN') or rng.random() < (0.65 if k == 'N' else 0.4):
         return it
     v, p = it[2], it[3]
-    kinds = ['SN', 'SM']
+    kinds = ['SN', 'SM', 'SW']
     if 0 < p < W[ver]:
         kinds.append('SH')
     if ver == 4:
@@ -334,7 +338,8 @@ def corpus():
         _merge_case(r, [('N', 4, 0, 0), ('N', 6, 77, 0), ('A', 4, 9)], 'whole', raw=False),
         # the coercion glue through the model: every spelling, an int (TypeError), order of the first error
         _merge_case(r, [('SM', 4, 0xC0000205, 25), ('SH', 4, 0xC0000280, 25), ('A', 4, 0xC0000300),
-                        ('SP', 4, 0x0A000000, 8), ('SZ', 4, 0x0A010203, 32), ('SA', 6, 1), ('R', 6, 2, 3)], 'forms', raw=True),
+                        ('SP', 4, 0x0A000000, 8), ('SZ', 4, 0x0A010203, 32), ('SA', 6, 1), ('R', 6, 2, 3),
+                        ('SW', 4, 0x0B000001, 8), ('SW', 6, 1 << 64, 64)], 'forms', raw=True),
         _merge_case(r, [('SN', 4, 0xC0000200, 25), ('I', 4, 5)], 'int', raw=True),
         _merge_case(r, [('I', 4, 5), ('SX', 4, 'bad')], 'int', raw=True),
         _merge_case(r, [('SX', 4, 'bad'), ('I', 4, 5)], 'int', raw=True),
